@@ -713,6 +713,18 @@ func (e *SpecEnv) evalCall(x SCall) SV {
 	case "loopBound":
 		// loopBound(): the allocation counter when the enclosing loop was entered (loop invariants only):
 		// everything allocated by the iterations lies at or above it, everything allocated before below it
+		if len(x.Args) == 1 {
+			// loopBound(n): entry bound of the n-th loop of the function (rebind expressions)
+			lit, ok := x.Args[0].(SIntLit)
+			if !ok {
+				e.fail("loopBound(n) wants an integer literal")
+			}
+			sv, ok := e.Vars["#loopbound"+lit.V]
+			if !ok {
+				e.fail("loopBound(%s): the loop has not been entered here", lit.V)
+			}
+			return sv
+		}
 		sv, ok := e.Vars["#loopbound"]
 		if !ok {
 			e.fail("loopBound() outside a loop invariant")
